@@ -461,7 +461,7 @@ fn small_angle2<T: Tier + Dom<M = Sh>>(rep: &mut Report) {
 /// float tiers: vectors a hair off unit length (and off the target length of normalize_to)
 fn near_unit<T: Tier + Dom<M = Sh>, V: Inner<T, N>, const N: usize>(rep: &mut Report) {
     let py = pythagorean(N);
-    let ks: Vec<i32> = if T::NAME == "F" { vec![8, 14, 20] } else { vec![10, 24, 36, 48] };
+    let ks: Vec<i32> = if T::NAME == "F" { (3..=22).collect() } else { (3..=50).collect() };
     rep.cases(
         &format!("near-unit/{}", V::NAME),
         T::NAME,
